@@ -27,3 +27,25 @@ def pround (x : Rat) : Int :=
 def pshow (x : Rat) : String := s!"{x.num}/{x.den}"
 
 end Pymeeus.PQ
+
+namespace Pymeeus.PQ
+/-! Additions for the Angle model (C03/C04). -/
+
+/-- `10 ** n` as an exact rational, `n` any integer. -/
+def pow10 (n : Int) : Rat :=
+  if n ≥ 0 then ((10 ^ n.toNat : Nat) : Rat) else 1 / ((10 ^ (-n).toNat : Nat) : Rat)
+
+/-- `round(x, n)` on a float: the multiple of `10**-n` nearest to `x`, ties to even. -/
+def proundn (x : Rat) (n : Int) : Rat := (pround (x * pow10 n) : Int) / pow10 n
+
+/-- `x ** n` for a float `x` and an `int` `n` (`float_pow`): `0.0 ** negative` raises
+    ZeroDivisionError; no overflow in exact arithmetic. -/
+def ppowi (x : Rat) (n : Int) : PyRes Rat :=
+  if n ≥ 0 then .ok (x ^ n.toNat)
+  else if x = 0 then .error .zeroDivisionError
+  else .ok (1 / x ^ (-n).toNat)
+
+/-- Python float `x % y`: ZeroDivisionError for `y == 0`. -/
+def pmodE (x y : Rat) : PyRes Rat := if y = 0 then .error .zeroDivisionError else .ok (pmod x y)
+
+end Pymeeus.PQ
